@@ -112,6 +112,18 @@ Theorem same_bytes_never_execute_twice :
 Proof. exact (@same_bytes_never_twice). Qed.
 Print Assumptions same_bytes_never_execute_twice.
 
+(* two byte strings that decode to the same signer address and nonce (the same
+   bytes, or two encodings of the same envelope) are never both authenticated *)
+Theorem same_signed_content_never_executes_twice :
+  forall (L Raw : Type) (C : cfg L Raw) (s : state L) (o1 o2 o3 : list op) (raw raw2 : Raw),
+    (forall a, nonce_of s a < U64) ->
+    auth_info C raw2 = auth_info C raw ->
+    authenticated (snd (deliver C (run C s o1) raw)) = true ->
+    authenticated (snd (deliver C (run C s (o1 ++ OTx raw :: o2)) raw2)) = true ->
+    exists a, U64 < N.of_nat (length (of_addr a (trace C s (o1 ++ OTx raw :: o2 ++ OTx raw2 :: o3)))).
+Proof. exact (@same_content_never_twice). Qed.
+Print Assumptions same_signed_content_never_executes_twice.
+
 Theorem restart_is_identity :
   forall (L Raw : Type) (C : cfg L Raw) (s : state L), step C s ORestart = s.
 Proof. exact (@Proofs.restart_is_identity). Qed.
@@ -133,3 +145,18 @@ Theorem bit_flip_rejected_or_forgery :
           \/ (exists x y, x <> y /\ hashf C x = hashf C y)).
 Proof. exact (@Proofs.bit_flip_rejected_or_forgery). Qed.
 Print Assumptions bit_flip_rejected_or_forgery.
+
+(* The literal clause "altered in any bit never takes effect" does not follow
+   from the signature check and is false for a decoder that maps two byte
+   strings to one envelope (as the repository's CBOR decoder does): the altered
+   bytes carry the SAME signed content and execute in its place (never in
+   addition: same_bytes_never_execute_twice / no_replay). *)
+Theorem bit_flip_never_executes_refuted :
+  exists (L Raw : Type) (C : cfg L Raw) (s : state L) (raw raw' : Raw),
+    raw' <> raw /\ (forall m, is_critical C m = false) /\
+    dec_env C raw' = dec_env C raw /\
+    authenticated (snd (deliver C s raw)) = true /\
+    authenticated (snd (deliver C s raw')) = true /\
+    exec_reached (snd (deliver C s raw')) = true.
+Proof. exact GenFacts.bit_flip_never_executes_refuted. Qed.
+Print Assumptions bit_flip_never_executes_refuted.
